@@ -235,6 +235,76 @@ theorem renderSeen_congr (ms ms' : List Msg) (h1 : ms.filter (!·.old) = ms'.fil
   unfold renderSeen
   rw [h1, sortStr_perm (h2.map renderMsg)]
 
+/-! ### keyed readers -/
+
+theorem find?_filter_and {α : Type} (l : List α) (p q : α → Bool) :
+    (l.filter p).find? q = l.find? (fun a => q a && p a) := by
+  induction l with
+  | nil => rfl
+  | cons a l ih =>
+    by_cases hp : p a = true
+    · by_cases hq : q a = true
+      · simp [hp, hq]
+      · simp [hp, hq, ih]
+    · simp [hp, ih]
+
+/-- `find?` does not depend on the order when at most one element can match -/
+theorem find?_perm_unique {α : Type} {p : α → Bool} {l l' : List α} (h : l.Perm l')
+    (hu : ∀ a ∈ l, ∀ b ∈ l, p a = true → p b = true → a = b) : l.find? p = l'.find? p := by
+  cases h1 : l.find? p with
+  | none =>
+    have hn := List.find?_eq_none.1 h1
+    exact (List.find?_eq_none.2 (fun x hx => hn x (h.mem_iff.2 hx))).symm
+  | some a =>
+    have ha := List.mem_of_find?_eq_some h1
+    have hpa := List.find?_some h1
+    cases h2 : l'.find? p with
+    | none => exact absurd hpa (List.find?_eq_none.1 h2 a (h.mem_iff.1 ha))
+    | some c =>
+      have hc := List.mem_of_find?_eq_some h2
+      have hpc := List.find?_some h2
+      rw [hu a ha c (h.mem_iff.2 hc) hpa hpc]
+
+/-- the bound map is a function: one value per key -/
+def Functional (inputs : List (Bytes × Bytes)) : Prop := ∀ a ∈ inputs, ∀ b ∈ inputs, a.1 = b.1 → a = b
+
+theorem expectedOld_unique (inputs : List (Bytes × Bytes)) (hf : Functional inputs) (k : Bytes) :
+    ∀ a ∈ expectedOld inputs, ∀ b ∈ expectedOld inputs,
+      decide (a.key = k) = true → decide (b.key = k) = true → a = b := by
+  intro a ha c hc hka hkc
+  simp only [expectedOld, List.mem_map] at ha hc
+  obtain ⟨x, hx, rfl⟩ := ha
+  obtain ⟨y, hy, rfl⟩ := hc
+  simp only [decide_eq_true_eq] at hka hkc
+  have := hf x hx y hy (hka.trans hkc.symm)
+  rw [this]
+
+/-- asking chunks that are all rearrangements of the same functional map: the first chunk answers -/
+theorem find?_flatMap_expectedOld (inputs : List (Bytes × Bytes)) (hf : Functional inputs) (k : Bytes)
+    (L : List (List (Bytes × Bytes))) (h : ∀ o ∈ L, o.Perm inputs) :
+    (L.flatMap expectedOld).find? (fun m => decide (m.key = k)) =
+      if L = [] then none else (expectedOld inputs).find? (fun m => decide (m.key = k)) := by
+  induction L with
+  | nil => rfl
+  | cons o L ih =>
+    have ho : (expectedOld o).Perm (expectedOld inputs) := (h o (by simp)).map _
+    have hfo : (expectedOld o).find? (fun m => decide (m.key = k)) =
+        (expectedOld inputs).find? (fun m => decide (m.key = k)) :=
+      (find?_perm_unique ho.symm (expectedOld_unique inputs hf k)).symm
+    have ih' := ih (fun x hx => h x (by simp [hx]))
+    simp only [List.flatMap_cons, List.find?_append, hfo, ih', List.cons_ne_nil, if_false]
+    cases (expectedOld inputs).find? (fun m => decide (m.key = k)) with
+    | none => by_cases hL : L = [] <;> simp [hL]
+    | some a => rfl
+
+theorem expectedOldN_eq_flatMap (n : Nat) (inputs : List (Bytes × Bytes)) :
+    expectedOldN n inputs = (List.replicate n inputs).flatMap expectedOld := by
+  induction n with
+  | zero => rfl
+  | succ n ih =>
+    simp only [expectedOldN, List.replicate_succ, List.flatten_cons, List.flatMap_cons] at ih ⊢
+    rw [ih]
+
 /-! ### the script builder of the driver realises exactly the calls / map orders it was given -/
 
 theorem callsOf_map_flash (calls : List (Bytes × Bytes × Nat)) :
